@@ -70,7 +70,7 @@ def setZeroResidualVelocity (values : List Rat) (dt : Rat) (timezone : Timezone)
 
 /-- `delta_acc = post_disp * 2 / ttime ** 2` -/
 def dispDelta (postDisp ttime : Rat) : Fl :=
-  fdiv (fmul (some postDisp) (some 2)) (some (ttime * ttime))
+  fdiv (fmul (some postDisp) (some 2)) (some (ttime ^ 2))
 
 /-- `AccSignal.set_zero_residual_displacement(timezone)`: any `timezone` other than `None` raises `ValueError('Not supported')` -/
 def setZeroResidualDisplacement (values : List Rat) (dt : Rat) (timezone : Timezone) : Except ErrKind (List Rat) :=
@@ -132,12 +132,6 @@ def setZeroResidualDisplacementAndVelocity (values : List Rat) (dt : Rat) (timez
     zeroDispVelWith values pdisp 0 (t1 - t0) (some si) (some ei) (tincs.map (· - t00))
 
 /-! ### `correct_me` -/
-
-/-- the array `x` after `for i in range(n - 1): x[i + 1] = (y[i + 1] - y[i]) / dt` on `x = np.zeros(n)` (`len(y) = n`): `x[0] = 0` -/
-def diffQuot (y : List Fl) (dt : Rat) : List Fl :=
-  match y with
-  | [] => []
-  | y0 :: ys => some 0 :: List.zipWith (fun b a => fdiv (fsub b a) (some dt)) ys (y0 :: ys)
 
 /-- `AccSignal.correct_me()`; `detrend` stands for `scipy.signal.detrend` (removal of the least-squares line; length preserving) -/
 def correctMe (detrend : List Rat → List Rat) (values : List Rat) (dt : Rat) : Except ErrKind (List Rat) := do
